@@ -677,7 +677,7 @@ func genC19(g *Gen) {
 	// --- Hex / Binary ---
 	c19Parse(g, "hex", "")
 	c19Parse(g, "binary", "")
-	alpha := []byte{'0', '1', '9', 'a', 'F', 'g', '_', '+', '-', ' '}
+	alpha := []byte{'0', '1', '9', 'a', 'b', 'B', 'x', 'F', 'g', '_', '+', '-', ' '}
 	maxLen := g.pick(4, 5)
 	var rec func(cur []byte)
 	rec = func(cur []byte) {
